@@ -457,6 +457,9 @@ class ParserSessionProp(object):
         import math as _m
         if spec.get('regenerate'):
             return True, 'crash during generation'
+        oi = violation.get('op_index')
+        if isinstance(oi, int) and oi < len(spec['ops']) and spec['ops'][oi].get('executor_mode') in ('replica', 'fork'):
+            return True, 'observed with workers that already were separate processes'
         pooled = any(op.get('op') == 'call' and len(op['batch']) > op.get('max_chunk_size', 20)
                      for op in spec['ops'])
         if not pooled:
